@@ -3,9 +3,12 @@
 package goja
 
 import (
+	"crypto/sha256"
 	"fmt"
 	"hash/maphash"
+	"math"
 	"reflect"
+	"sort"
 	"strings"
 	"unsafe"
 )
@@ -239,4 +242,140 @@ func VerifC16ImportedRanges(v Value) []VerifC16Range {
 		out = append(out, VerifC16Range{p, p + uintptr(u.Cap())*2, "imported-memo-array"})
 	}
 	return out
+}
+
+// VerifC16ProgramDigest hashes everything reachable from a compiled Program through fields of goja's own types:
+// every instruction with all its fields, nested Programs, names maps (sorted), name slices, template slots with
+// their flags and values, regexp patterns with their flags and the presence/identity of their wrappers and match
+// caches, constants, source maps.  Pointers into other packages (regexp engines, *file.File with its mutex-protected
+// lazily built line table) are hashed by address only.  Two digests taken in the same process are equal iff
+// nothing of that graph was written in between: "a Program is read-only after Compile", observed on the real heap.
+// Not synchronised: call it only while no goroutine runs the Program.
+func VerifC16ProgramDigest(prg *Program) string {
+	h := sha256.New()
+	seen := map[uintptr]bool{}
+	own := reflect.TypeOf(Program{}).PkgPath()
+	var walk func(v reflect.Value, depth int)
+	w := func(format string, a ...interface{}) { fmt.Fprintf(h, format, a...) }
+	walk = func(v reflect.Value, depth int) {
+		if depth > 64 {
+			w("<deep>")
+			return
+		}
+		if !v.IsValid() {
+			w("<invalid>")
+			return
+		}
+		switch v.Kind() {
+		case reflect.Bool:
+			w("b%v;", v.Bool())
+		case reflect.Int, reflect.Int8, reflect.Int16, reflect.Int32, reflect.Int64:
+			w("i%d;", v.Int())
+		case reflect.Uint, reflect.Uint8, reflect.Uint16, reflect.Uint32, reflect.Uint64, reflect.Uintptr:
+			w("u%d;", v.Uint())
+		case reflect.Float32, reflect.Float64:
+			w("f%x;", math.Float64bits(v.Float()))
+		case reflect.String:
+			w("s%d:%s;", v.Len(), v.String())
+		case reflect.Func, reflect.Chan, reflect.UnsafePointer:
+			w("p%x;", v.Pointer())
+		case reflect.Interface:
+			if v.IsNil() {
+				w("nil-iface;")
+				return
+			}
+			w("I(%s)", v.Elem().Type().String())
+			walk(v.Elem(), depth+1)
+		case reflect.Ptr:
+			if v.IsNil() {
+				w("nil;")
+				return
+			}
+			et := v.Type().Elem()
+			if et.PkgPath() != own || et.Name() == "Runtime" || et.Name() == "Object" || et.Name() == "vm" {
+				w("@%s:%x;", et.String(), v.Pointer()) // opaque: identity only
+				return
+			}
+			if seen[v.Pointer()] {
+				w("^%x;", v.Pointer())
+				return
+			}
+			seen[v.Pointer()] = true
+			w("&%s{", et.Name())
+			walk(v.Elem(), depth+1)
+			w("}")
+		case reflect.Struct:
+			t := v.Type()
+			if t.PkgPath() != own && t.PkgPath() != "" {
+				w("<%s>", t.String()) // foreign struct by value (sync.Once, atomic.Bool …): not part of the claim
+				return
+			}
+			w("%s{", t.Name())
+			for i := 0; i < v.NumField(); i++ {
+				w("%s=", t.Field(i).Name)
+				walk(v.Field(i), depth+1)
+			}
+			w("}")
+		case reflect.Slice:
+			if v.IsNil() {
+				w("nil-slice;")
+				return
+			}
+			w("[%d/%x:", v.Len(), v.Pointer())
+			for i := 0; i < v.Len(); i++ {
+				walk(v.Index(i), depth+1)
+			}
+			w("]")
+		case reflect.Array:
+			w("[%d:", v.Len())
+			for i := 0; i < v.Len(); i++ {
+				walk(v.Index(i), depth+1)
+			}
+			w("]")
+		case reflect.Map:
+			if v.IsNil() {
+				w("nil-map;")
+				return
+			}
+			type kv struct {
+				k string
+				v reflect.Value
+			}
+			var items []kv
+			it := v.MapRange()
+			for it.Next() {
+				items = append(items, kv{fmt.Sprint(it.Key()), it.Value()})
+			}
+			sort.Slice(items, func(i, j int) bool { return items[i].k < items[j].k })
+			w("map[%d/%x:", len(items), v.Pointer())
+			for _, e := range items {
+				w("%s=>", e.k)
+				walk(e.v, depth+1)
+			}
+			w("]")
+		default:
+			w("?%s;", v.Kind())
+		}
+	}
+	walk(reflect.ValueOf(prg), 0)
+	return fmt.Sprintf("%x", h.Sum(nil))
+}
+
+// VerifC16SymbolDigest renders the internals of a Symbol (its identity and its description's representation and
+// content) so that "a Symbol is immutable" can be observed before and after it was shared.
+func VerifC16SymbolDigest(v Value) string {
+	s, ok := v.(*Symbol)
+	if !ok {
+		return ""
+	}
+	d := "<nil>"
+	if s.desc != nil {
+		d = VerifC16StringRepr(s.desc) + ":" + s.desc.String()
+	}
+	return fmt.Sprintf("%p|%s|fields=%d", s, d, reflect.TypeOf(*s).NumField())
+}
+
+// VerifC16WellKnownSymbols returns the package-level well-known symbols, which every Runtime shares.
+func VerifC16WellKnownSymbols() []*Symbol {
+	return []*Symbol{SymHasInstance, SymIsConcatSpreadable, SymIterator, SymMatch, SymMatchAll, SymReplace, SymSearch, SymSpecies, SymSplit, SymToPrimitive, SymToStringTag, SymUnscopables}
 }
